@@ -758,10 +758,10 @@ def int_ovf_input(ctx):
 
 # constructor key -> number of option-validation exits confirmed by reading the pinned (repaired) tree
 VALIDATION_FLOORS = {
-    'XZWriter::new': 1,                    # too many pre-filters
+    'XZWriter::new': 2,                    # too many pre-filters / filter property out of range
     'XZWriter::write_block_header': 1,     # filter chain longer than the format allows
     'XZWriter::encode_lzma2_dict_size': 2, # below 4 KiB / above the largest encodable size
-    'LZMAWriter::new': 1,                  # preset dictionary together with a .lzma header
+    'LZMAWriter::new': 2,                  # preset dictionary with a .lzma header / header without size and end marker
     'LZMA2WriterMT::new': 2,               # chunk size missing / does not fit usize
     'LZIPWriterMT::new': 2,                # member size missing / does not fit usize
     'lzip::encode_dict_size': 1,           # dictionary size outside the encodable range
